@@ -598,7 +598,16 @@ def eq_matrix(groups):
                     row.append(2)
             un.append(row)
         gr = [1 if is_ground(o) else 0 for o in objs]
-        out.append({"id": g["id"], "eq": eq, "eq0": eq0, "hash": hcls, "unif": un, "ground": gr,
+
+        def erased(o):
+            """the term with the Python classes erased: functor text (without quotes) and arguments"""
+            try:
+                f = str(o.functor).strip("'")
+                args = getattr(o, "args", ())
+                return f + ("(" + ",".join(erased(a) for a in args) + ")" if args else "")
+            except Exception:
+                return repr(o)
+        out.append({"id": g["id"], "eq": eq, "eq0": eq0, "hash": hcls, "unif": un, "ground": gr, "erased": [erased(o) for o in objs],
                     "repr": [repr(o) for o in objs], "types": [type(o).__name__ for o in objs]})
     return {"results": out}
 
